@@ -15,6 +15,7 @@ TRACE = {
  "C09": "the three reservation views, the counter lower bound and the exclusivity of reserved nodes are checked on every state/step",
  "C10": "every state-log segment of every application must follow the documented transition table; completed/idle/terminated rules are state and step invariants",
  "C11": "max-applications gate on every first allocation of an Accepted application; running/allocating counts as state invariants",
+ "C12": "a restart operation (fresh core in the same process, the shim replays what IT knows - nodes, force-created applications, foreign and bound allocations, outstanding asks - in a seed-chosen legal order) is injected at arbitrary points of seeded histories; nothing may be rejected, per node/application totals must equal what the shim's knowledge implies, and equal the old core's totals (nodes, applications, managed queues, users) when nothing was in flight; the history then continues under every other check",
  "C13": "every malformed-request class of the property statement (harness/drive/bad.go, 36 classes: unknown/duplicate/empty ids, unset sub-messages, zero/negative resources, releases of nothing or with an unexpected termination type, updates for unknown nodes / released allocations) is injected in states reached by seeded histories; no panic, no hang, the matching rejection, and for invalid items every ledger exactly unchanged; all ledger invariants keep being evaluated",
  "C16": "every reload step: rejected => nothing observable changes; accepted => nodes/applications/queue totals preserved, new limits/properties applied as the abstract configuration says, missing managed queues Draining, draining leaf rejects new applications, queues removed only when empty",
 }
@@ -33,13 +34,25 @@ for p, txt in TRACE.items():
         "level_claimed": {"category": "model_checking" if p in MODEL else "exploration", "text": txt + (MODEL_TXT if p in MODEL else "") + ". Conformance: histories are seeded samples (quick ~15k, thorough ~500k validated steps), every step of every history is judged by the specification.", "design_ref": "DESIGN.md section 6 (" + p + ")"},
         "level_note": "trusted: the projection harness/drive/project.go (exported getters, REST DAOs, build-tagged export shims), TLC's evaluation of YKTrace.tla, the sequential driver (one SI request or one scheduling cycle per step, quiescent after each step). Known findings are exempted only by the narrow shape predicates listed in KNOWN_FINDINGS.json.",
     })
+OTHER = {
+ "C18": dict(engine="lockstep-resarith", cat="model_checking", tech="TLA+ specification of the resource operators and the quantity grammar; TLC enumerates boundary inputs with expected results, lock-step replay on the real functions; Apalache proves the saturating int64 arithmetic for all inputs",
+   text="spec/ResOps.tla specifies the 28 vector operators, spec/Int64Sat.tla transcribes addVal/subVal/mulVal as coded: Apalache proves Coded = Clamp(exact) for ALL int64 inputs, TLC enumerates all operator cases over key sets within {a,b} (nil and empty included) and boundary values (MinInt64..MaxInt64 in boundary-symbolic form) and every quantity string up to 4/5 symbols; each case is replayed on the real pkg/common/resources functions (result, panics, arguments unmodified)",
+   note="trusted: TLC/Apalache, the 10-line math/big evaluator of the symbolic quantity value (the quantity half is a specification-derived differential test), the conversion of boundary-symbolic pairs to int64"),
+ "C20": dict(engine="lockstep-events", cat="model_checking", tech="TLA+ specifications EventRing/EventStore/EventStream model-checked by TLC; every behaviour replayed lock-step on the real ring buffer / store, every interleaving of the stream protocol replayed on the real EventStreaming with gates",
+   text="EventRing.tla (id-indexed history with Add/Resize/Query/Recent), EventStore.tla and EventStream.tla (publisher and subscriber split into the steps the code takes) are explored exhaustively by TLC for capacities 1..4, <=9 ids, all (start,count) in 0..10 x 0..10, 1-2 subscribers, <=4 events; all behaviours are replayed on the real objects (pointer identity of records), stream interleavings are forced on the real EventStreaming/EventSystemImpl through the verif gates",
+   note="trusted: TLC, the gate-steered replayer (a blocked CreateEventStream / PublishEvent is released by the schedule), delivery time-outs of 10 s"),
+}
 NA = {
  "C05": "check under construction in this revision (usage invariants exist in YKTrace.tla; the limit-enforcement step check and the UpdateConfig lock-step replay are not registered yet)",
- "C12": "check under construction in this revision (restart operation of the harness not registered yet)",
  "C14": "check under construction in this revision (concurrent mode not registered yet)",
- "C15": "check under construction in this revision", "C17": "check under construction in this revision", "C18": "check under construction in this revision",
- "C19": "check under construction in this revision", "C20": "check under construction in this revision",
+ "C15": "check under construction in this revision", "C17": "check under construction in this revision",
+ "C19": "check under construction in this revision",
 }
+for p, o in OTHER.items():
+    checks.append({"property_id": p, "quick_cmd": "bin/check %s quick" % p, "thorough_cmd": "bin/check %s thorough" % p, "evidence_file": "/verif/evidence/%s.json" % p,
+        "replay_cmd_template": "bin/check %s --replay {path}" % p, "engine": o["engine"], "technique": o["tech"],
+        "level_claimed": {"category": o["cat"], "text": o["text"], "design_ref": "DESIGN.md section 6 (" + p + ")"}, "level_note": o["note"]})
+checks.sort(key=lambda c: c["property_id"])
 m = {
  "version": 1,
  "setup_cmd": "bin/setup",
@@ -47,6 +60,8 @@ m = {
            "baseline_off_cmd": "bin/baseline_off", "source_commits": hook_commits, "add_only": True},
  "engines": [
    {"name": "model+trace-validation", "path": "/verif/vlib/modelgen.py", "serves_properties": sorted(MODEL), "kind_free_text": "TLC exhaustive model checking of spec/YuniKorn.tla (MC_YK*.cfg) and TLC-generated tests replayed through the harness and validated step by step"},
+   {"name": "lockstep-resarith", "path": "/verif/vlib/resarith.py", "serves_properties": ["C18"], "kind_free_text": "TLC/Apalache on spec/ResOps.tla, Int64Sat.tla, Quantity.tla + ykh resarith lock-step replay"},
+   {"name": "lockstep-events", "path": "/verif/vlib/events.py", "serves_properties": ["C20"], "kind_free_text": "TLC on spec/EventRing.tla, EventStore.tla, EventStream.tla + ykh events replay (ring/store lock-step, stream interleavings with gates)"},
    {"name": "trace-validation", "path": "/verif/vlib/tracecheck.py", "serves_properties": sorted(TRACE), "kind_free_text": "Go harness (harness/) drives the real ClusterContext synchronously and logs NDJSON; TLC validates every step against spec/YKTrace.tla"},
  ],
  "checks": checks,
